@@ -27,6 +27,17 @@ theorem shape_entityOrRecord {τe : CedarType} (hme : τe.mono = true)
 theorem shape_set {τ : CedarType} (hsub : [CedarType.set none].any (fun t => isSubtype .permissive τ t) = true) :
     τ = .never ∨ ∃ el, τ = .set el := subtype_anySet hsub
 
+theorem typeOfList_flat' {m : ValidationMode} {s : Schema} {env : RequestEnv} {caps : Capabilities} :
+    ∀ {es : List Expr} {τs : List CedarType}, es.all FlatExpr = true → typeOfList m s env es caps = .ok τs →
+      ∀ t, t ∈ τs → t.flat = true
+  | [], τs, _, h, t, ht => by simp only [typeOfList, Except.ok.injEq] at h; subst h; cases ht
+  | e :: es, τs, hf, h, t, ht => by
+    simp only [List.all_cons, Bool.and_eq_true] at hf
+    obtain ⟨τ, c, τs', h1, h2, rfl⟩ := typeOfList_cons h
+    rcases List.mem_cons.mp ht with rfl | ht
+    · exact flat_typeOf hf.1 h1
+    · exact typeOfList_flat' hf.2 h2 t ht
+
 theorem ite_err_ok {c : Bool} {x : CedarType} {y : Capabilities}
     (h : (if c = true then (.error .fail : TcResult) else ok boolT) = .ok (x, y)) : x = boolT ∧ y = [] := by
   split at h
@@ -34,9 +45,9 @@ theorem ite_err_ok {c : Bool} {x : CedarType} {y : Capabilities}
   · simp only [ok, Except.ok.injEq, Prod.mk.injEq] at h; exact ⟨h.1.symm, h.2.symm⟩
 
 mutual
-theorem sound2 {s : Schema} {env : RequestEnv} {w : World} (hWF : SchemaWF2 s) (henv : EnvMatches s env w.q) :
-    ∀ (e : Expr), InFragment2 env e = true → ∀ (caps : Capabilities) (τ : CedarType) (c' : Capabilities),
-      typeOf .strict s env e caps = .ok (τ, c') → τ.mono = true ∧ (Sem s env w → CapsHold w caps → Good w e τ c')
+theorem soundM {m : ValidationMode} {s : Schema} {env : RequestEnv} {w : World} (hWF : SchemaWF2 s) (henv : EnvMatches s env w.q) :
+    ∀ (e : Expr), InFragmentM m env e = true → ∀ (caps : Capabilities) (τ : CedarType) (c' : Capabilities),
+      typeOf m s env e caps = .ok (τ, c') → τ.mono = true ∧ (Sem s env w → CapsHold w caps → Good w e τ c')
   | .lit p, _, caps, τ, c', h =>
     ⟨typeOf_mono hWF.toSchemaWF henv (.lit p) rfl caps τ c' h,
      fun hs hc => typeOf_sound_aux hWF.toSchemaWF henv hs.req hs.store (.lit p) rfl caps τ c' h hc⟩
@@ -46,7 +57,7 @@ theorem sound2 {s : Schema} {env : RequestEnv} {w : World} (hWF : SchemaWF2 s) (
   | .slot sid, hf, caps, τ, c', h => by
     cases sid with
     | principal =>
-      simp only [InFragment2] at hf
+      simp only [InFragmentM] at hf
       cases hsl : env.principalSlot with
       | none => rw [hsl] at hf; cases hf
       | some t =>
@@ -55,7 +66,7 @@ theorem sound2 {s : Schema} {env : RequestEnv} {w : World} (hWF : SchemaWF2 s) (
         obtain ⟨u, hu, hty⟩ := hs.slots.1 t hsl
         exact Good.value (v := .prim (.entityUID u)) (by simp [evaluate, hu]) (.entity u _ (by simp [hty]))
     | resource =>
-      simp only [InFragment2] at hf
+      simp only [InFragmentM] at hf
       cases hsl : env.resourceSlot with
       | none => rw [hsl] at hf; cases hf
       | some t =>
@@ -65,8 +76,8 @@ theorem sound2 {s : Schema} {env : RequestEnv} {w : World} (hWF : SchemaWF2 s) (
         exact Good.value (v := .prim (.entityUID u)) (by simp [evaluate, hu]) (.entity u _ (by simp [hty]))
   | .unknown _ _, _, _, _, _, h => by simp [typeOf] at h
   | .call fn args, hf, caps, τ, c', h => by
-    simp only [InFragment2] at hf
-    have ih := sound2List hWF henv args hf
+    simp only [InFragmentM] at hf
+    have ih := soundMList (m := m) hWF henv args hf
     simp only [typeOf] at h
     cases hsig : extSig fn with
     | none =>
@@ -74,7 +85,7 @@ theorem sound2 {s : Schema} {env : RequestEnv} {w : World} (hWF : SchemaWF2 s) (
       split at h <;> cases h
     | some sig =>
       rw [hsig] at h; simp only at h
-      cases hL : typeOfList .strict s env args caps with
+      cases hL : typeOfList m s env args caps with
       | error err => rw [hL] at h; cases h
       | ok τs =>
         rw [hL] at h; simp only at h
@@ -92,11 +103,11 @@ theorem sound2 {s : Schema} {env : RequestEnv} {w : World} (hWF : SchemaWF2 s) (
             exact ⟨extSig_ret_mono hsig, fun hs hc => call_good hsig (gl hs hc) hlen hall⟩
           · cases h
   | .and a b, hf, caps, τ, c', h => by
-    simp only [InFragment2, Bool.and_eq_true] at hf
-    have iha := sound2 hWF henv a hf.1
-    have ihb := sound2 hWF henv b hf.2
+    simp only [InFragmentM, Bool.and_eq_true] at hf
+    have iha := soundM (m := m) hWF henv a hf.1
+    have ihb := soundM (m := m) hWF henv b hf.2
     simp only [typeOf] at h
-    cases hA : expectOneOf (typeOf .strict s env a caps) [boolT] with
+    cases hA : expectOneOf (typeOf m s env a caps) [boolT] with
     | error err => rw [hA] at h; cases h
     | ok pa =>
       obtain ⟨τa, ca⟩ := pa
@@ -115,7 +126,7 @@ theorem sound2 {s : Schema} {env : RequestEnv} {w : World} (hWF : SchemaWF2 s) (
         · have : x = false := by simpa [boolInst] using hix
           subst this
           exact TySound.of_bool (b := false) (by simp [evaluate, hx, Value.asBool]) (by simp [boolInst]) (fun h => by cases h)
-      · cases hB : expectOneOf (typeOf .strict s env b (caps.union ca)) [boolT] with
+      · cases hB : expectOneOf (typeOf m s env b (caps.union ca)) [boolT] with
         | error err => rw [hB] at h; cases h
         | ok pb =>
           obtain ⟨τb, cb⟩ := pb
@@ -132,11 +143,11 @@ theorem sound2 {s : Schema} {env : RequestEnv} {w : World} (hWF : SchemaWF2 s) (
           have hca := sa2 rfl
           exact andCaps_hold hca ((ihb' hca).2 rfl)
   | .or a b, hf, caps, τ, c', h => by
-    simp only [InFragment2, Bool.and_eq_true] at hf
-    have iha := sound2 hWF henv a hf.1
-    have ihb := sound2 hWF henv b hf.2
+    simp only [InFragmentM, Bool.and_eq_true] at hf
+    have iha := soundM (m := m) hWF henv a hf.1
+    have ihb := soundM (m := m) hWF henv b hf.2
     simp only [typeOf] at h
-    cases hA : expectOneOf (typeOf .strict s env a caps) [boolT] with
+    cases hA : expectOneOf (typeOf m s env a caps) [boolT] with
     | error err => rw [hA] at h; cases h
     | ok pa =>
       obtain ⟨τa, ca⟩ := pa
@@ -156,7 +167,7 @@ theorem sound2 {s : Schema} {env : RequestEnv} {w : World} (hWF : SchemaWF2 s) (
         · have : x = true := by simpa [boolInst] using hix
           subst this
           exact TySound.of_bool (b := true) (by simp [evaluate, hx, Value.asBool]) (by simp [boolInst]) (fun _ => hcx rfl)
-      · cases hB : expectOneOf (typeOf .strict s env b caps) [boolT] with
+      · cases hB : expectOneOf (typeOf m s env b caps) [boolT] with
         | error err => rw [hB] at h; cases h
         | ok pb =>
           obtain ⟨τb, cb⟩ := pb
@@ -188,13 +199,13 @@ theorem sound2 {s : Schema} {env : RequestEnv} {w : World} (hWF : SchemaWF2 s) (
           · exact hR (by simp [boolInst]) (sb2 rfl)
           · exact hL (by simp [boolInst]) (sa2 rfl)
   | .ite c t e, hf, caps, τ, c', h => by
-    simp only [InFragment2, Bool.and_eq_true] at hf
-    obtain ⟨⟨hfc, hft⟩, hfe⟩ := hf
-    have ihc := sound2 hWF henv c hfc
-    have iht := sound2 hWF henv t hft
-    have ihe := sound2 hWF henv e hfe
+    simp only [InFragmentM, Bool.and_eq_true] at hf
+    obtain ⟨⟨⟨hfc, hft⟩, hfe⟩, hmode⟩ := hf
+    have ihc := soundM (m := m) hWF henv c hfc
+    have iht := soundM (m := m) hWF henv t hft
+    have ihe := soundM (m := m) hWF henv e hfe
     simp only [typeOf] at h
-    cases hC : expectOneOf (typeOf .strict s env c caps) [boolT] with
+    cases hC : expectOneOf (typeOf m s env c caps) [boolT] with
     | error err => rw [hC] at h; cases h
     | ok pc =>
       obtain ⟨τc, cc⟩ := pc
@@ -206,7 +217,7 @@ theorem sound2 {s : Schema} {env : RequestEnv} {w : World} (hWF : SchemaWF2 s) (
       · -- test typed True
         rename_i htrue
         have := isTrue_eq htrue; subst this
-        cases hT : typeOf .strict s env t (caps.union cc) with
+        cases hT : typeOf m s env t (caps.union cc) with
         | error err => rw [hT] at h; cases h
         | ok pt =>
           obtain ⟨τt, ct⟩ := pt
@@ -246,14 +257,40 @@ theorem sound2 {s : Schema} {env : RequestEnv} {w : World} (hWF : SchemaWF2 s) (
             · exact Or.inr ⟨v, by rw [heq, hv], hi, hcv⟩
         · -- both branches: least upper bound
           obtain ⟨τt, ct, τe, ce, hT, hE, hk⟩ := both_ok h
-          cases hl : lub .strict τt τe with
+          cases hl : lub m τt τe with
           | none => rw [hl] at hk; cases hk
           | some τl =>
             rw [hl] at hk
             simp only [Except.ok.injEq, Prod.mk.injEq] at hk; obtain ⟨rfl, rfl⟩ := hk
             obtain ⟨hmt, gt⟩ := iht (caps.union cc) τt ct hT
             obtain ⟨hme, ge⟩ := ihe caps τe ce hE
-            refine ⟨lub_mono hl hmt hme, fun hs hc => ?_⟩
+            -- what is needed of the least upper bound, per mode
+            have hlub : τl.mono = true ∧ (∀ v, InstanceOfType v τt → InstanceOfType v τl) ∧
+                (∀ v, InstanceOfType v τe → InstanceOfType v τl) ∧ (τl = .bool .tt → τe = .bool .tt) := by
+              cases m with
+              | strict =>
+                refine ⟨lub_mono hl hmt hme, fun v hv => lub_inst_l hv _ _ hl, fun v hv => lub_inst_r hv _ _ hl, fun htt => ?_⟩
+                subst htt
+                rcases (lub_tt hl).2 with h1 | h1
+                · exact h1
+                · exact (mono_ne_never hme h1).elim
+              | permissive =>
+                simp only [ValidationMode.isStrict, Bool.false_or, Bool.or_eq_true] at hmode
+                have hflat' : τt.flat = true ∨ τe.flat = true := by
+                  rcases hmode with hf | hf
+                  · exact Or.inl (flat_typeOf hf hT)
+                  · exact Or.inr (flat_typeOf hf hE)
+                obtain ⟨hlt, hle, hshape, httc⟩ := lub_flat hl hflat'
+                refine ⟨?_, hlt, hle, fun htt => ?_⟩
+                · rcases hshape with h1 | h1 | h1
+                  · rw [h1]; exact hmt
+                  · rw [h1]; exact hme
+                  · rw [h1]; rfl
+                · rcases (httc htt).2 with h1 | h1
+                  · exact h1
+                  · exact (mono_ne_never hme h1).elim
+            obtain ⟨hlm, hlt, hle, hltt⟩ := hlub
+            refine ⟨hlm, fun hs hc => ?_⟩
             obtain ⟨sc, _⟩ := gc hs hc
             have hcond := sc.bool_cases hbc
             obtain ⟨se, se2⟩ := ge hs hc
@@ -267,25 +304,22 @@ theorem sound2 {s : Schema} {env : RequestEnv} {w : World} (hWF : SchemaWF2 s) (
                   have heq : w.eval (.ite c t e) = w.eval t := by simp [evaluate, hx, Value.asBool]
                   rcases (iht' hcc).1 with ⟨err, he, hp⟩ | ⟨v, hv, hi, hcv⟩
                   · exact Or.inl ⟨err, by rw [heq, he], hp⟩
-                  · exact Or.inr ⟨v, by rw [heq, hv], lub_inst_l hi _ _ hl,
+                  · exact Or.inr ⟨v, by rw [heq, hv], hlt v hi,
                       fun hvt => capsHold_inter_right (capsHold_union.mpr ⟨hcv hvt, hcc⟩)⟩
                 | false =>
                   have heq : w.eval (.ite c t e) = w.eval e := by simp [evaluate, hx, Value.asBool]
                   rcases se with ⟨err, he, hp⟩ | ⟨v, hv, hi, hcv⟩
                   · exact Or.inl ⟨err, by rw [heq, he], hp⟩
-                  · exact Or.inr ⟨v, by rw [heq, hv], lub_inst_r hi _ _ hl, fun hvt => capsHold_inter_left (hcv hvt)⟩
+                  · exact Or.inr ⟨v, by rw [heq, hv], hle v hi, fun hvt => capsHold_inter_left (hcv hvt)⟩
             · -- typed True: the else branch is typed True, so its capabilities hold unconditionally
-              subst htt
-              rcases (lub_tt hl).2 with h1 | h1
-              · exact capsHold_inter_left (se2 h1)
-              · exact (mono_ne_never hme h1).elim
+              exact capsHold_inter_left (se2 (hltt htt))
   | .unaryApp op a, hf, caps, τ, c', h => by
-    simp only [InFragment2] at hf
-    have iha := sound2 hWF henv a hf
+    simp only [InFragmentM] at hf
+    have iha := soundM (m := m) hWF henv a hf
     cases op with
     | not =>
       simp only [typeOf] at h
-      cases hA : expectOneOf (typeOf .strict s env a caps) [boolT] with
+      cases hA : expectOneOf (typeOf m s env a caps) [boolT] with
       | error err => rw [hA] at h; cases h
       | ok pa =>
         obtain ⟨τa, ca⟩ := pa
@@ -302,7 +336,7 @@ theorem sound2 {s : Schema} {env : RequestEnv} {w : World} (hWF : SchemaWF2 s) (
           · exact ⟨rfl, fun hs hc => ⟨not_sound (ga hs hc).1 (Or.inr ⟨_, rfl⟩) (by intro x hx; simpa [boolInst] using hx), fun _ => capsHold_nil w⟩⟩
     | neg =>
       simp only [typeOf] at h
-      cases hA : expectOneOf (typeOf .strict s env a caps) [.long] with
+      cases hA : expectOneOf (typeOf m s env a caps) [.long] with
       | error err => rw [hA] at h; cases h
       | ok pa =>
         obtain ⟨τa, ca⟩ := pa
@@ -312,7 +346,7 @@ theorem sound2 {s : Schema} {env : RequestEnv} {w : World} (hWF : SchemaWF2 s) (
         exact ⟨rfl, fun hs hc => neg_sound ((iha caps τa ca hta).2 hs hc).1 (subtype_long hsa)⟩
     | isEmpty =>
       simp only [typeOf] at h
-      cases hA : expectOneOf (typeOf .strict s env a caps) [.set none] with
+      cases hA : expectOneOf (typeOf m s env a caps) [.set none] with
       | error err => rw [hA] at h; cases h
       | ok pa =>
         obtain ⟨τa, ca⟩ := pa
@@ -321,9 +355,9 @@ theorem sound2 {s : Schema} {env : RequestEnv} {w : World} (hWF : SchemaWF2 s) (
         obtain ⟨hta, hsa⟩ := expectOneOf_ok hA
         exact ⟨rfl, fun hs hc => isEmpty_good ((iha caps τa ca hta).2 hs hc).1 (shape_set hsa)⟩
   | .binaryApp op a b, hf, caps, τ, c', h => by
-    simp only [InFragment2, Bool.and_eq_true] at hf
-    have iha := sound2 hWF henv a hf.1.2
-    have ihb := sound2 hWF henv b hf.2
+    simp only [InFragmentM, Bool.and_eq_true] at hf
+    have iha := soundM (m := m) hWF henv a hf.1.2
+    have ihb := soundM (m := m) hWF henv b hf.2
     cases op with
     | eq =>
       simp only [typeOf] at h
@@ -451,10 +485,10 @@ theorem sound2 {s : Schema} {env : RequestEnv} {w : World} (hWF : SchemaWF2 s) (
         obtain ⟨hm, g⟩ := getTag_good (w := w) (τb := τb) (ca := ca) (cb := cb) hWF.toSchemaWF hk
         exact ⟨hm, fun hs hc => g hs.store hc (ga hs hc).1 (gb hs hc).1 (subtype_string hsb)⟩
   | .getAttr e a, hf, caps, τ, c', h => by
-    simp only [InFragment2] at hf
-    have ihe := sound2 hWF henv e hf
+    simp only [InFragmentM] at hf
+    have ihe := soundM (m := m) hWF henv e hf
     simp only [typeOf] at h
-    cases hE : expectOneOf (typeOf .strict s env e caps) [.anyEntity, anyRecord] with
+    cases hE : expectOneOf (typeOf m s env e caps) [.anyEntity, anyRecord] with
     | error err => rw [hE] at h; cases h
     | ok pe =>
       obtain ⟨τe, ce⟩ := pe
@@ -476,13 +510,13 @@ theorem sound2 {s : Schema} {env : RequestEnv} {w : World} (hWF : SchemaWF2 s) (
           · rename_i hcond
             simp only [ok, Except.ok.injEq, Prod.mk.injEq] at h; obtain ⟨rfl, rfl⟩ := h
             exact ⟨lookupAttr_mono hWF.toSchemaWF hme hl,
-              fun hs hc => getAttr_good (m := .strict) hWF.toSchemaWF hs.store hc (ge hs hc).1 hme hshape hl hcond⟩
+              fun hs hc => getAttr_good (m := m) hWF.toSchemaWF hs.store hc (ge hs hc).1 hme hshape hl hcond⟩
           · cases h
   | .hasAttr e a, hf, caps, τ, c', h => by
-    simp only [InFragment2] at hf
-    have ihe := sound2 hWF henv e hf
+    simp only [InFragmentM] at hf
+    have ihe := soundM (m := m) hWF henv e hf
     simp only [typeOf] at h
-    cases hE : expectOneOf (typeOf .strict s env e caps) [.anyEntity, anyRecord] with
+    cases hE : expectOneOf (typeOf m s env e caps) [.anyEntity, anyRecord] with
     | error err => rw [hE] at h; cases h
     | ok pe =>
       obtain ⟨τe, ce⟩ := pe
@@ -500,10 +534,10 @@ theorem sound2 {s : Schema} {env : RequestEnv} {w : World} (hWF : SchemaWF2 s) (
           split at h' <;> simp only [ok, Except.ok.injEq, Prod.mk.injEq] at h' <;> (rw [← h'.1]; split <;> rfl)
         exact ⟨hmono, fun hs hc => hasAttr_good hWF.toSchemaWF hs.store hc (ge hs hc).1 hme hshape h⟩
   | .like e pat, hf, caps, τ, c', h => by
-    simp only [InFragment2] at hf
-    have ihe := sound2 hWF henv e hf
+    simp only [InFragmentM] at hf
+    have ihe := soundM (m := m) hWF henv e hf
     simp only [typeOf] at h
-    cases hE : expectOneOf (typeOf .strict s env e caps) [.string] with
+    cases hE : expectOneOf (typeOf m s env e caps) [.string] with
     | error err => rw [hE] at h; cases h
     | ok pe =>
       obtain ⟨τe, ce⟩ := pe
@@ -516,10 +550,10 @@ theorem sound2 {s : Schema} {env : RequestEnv} {w : World} (hWF : SchemaWF2 s) (
       · obtain ⟨str, rfl⟩ := inst_string hi (subtype_string hsub)
         exact Good.value (v := .prim (.bool (wm pat str.toList))) (by simp [evaluate, hv, Value.asString]) (.anyBool _)
   | .is e ty, hf, caps, τ, c', h => by
-    simp only [InFragment2] at hf
-    have ihe := sound2 hWF henv e hf
+    simp only [InFragmentM] at hf
+    have ihe := soundM (m := m) hWF henv e hf
     simp only [typeOf] at h
-    cases hE : expectOneOf (typeOf .strict s env e caps) [.anyEntity] with
+    cases hE : expectOneOf (typeOf m s env e caps) [.anyEntity] with
     | error err => rw [hE] at h; cases h
     | ok pe =>
       obtain ⟨τe, ce⟩ := pe
@@ -542,10 +576,11 @@ theorem sound2 {s : Schema} {env : RequestEnv} {w : World} (hWF : SchemaWF2 s) (
           · subst hty; simp [boolInst]
           · simp [boolInst, hty, Ne.symm hty]
   | .set es, hf, caps, τ, c', h => by
-    simp only [InFragment2] at hf
-    have ih := sound2List hWF henv es hf
+    simp only [InFragmentM, Bool.and_eq_true] at hf
+    obtain ⟨hf, hmode⟩ := hf
+    have ih := soundMList (m := m) hWF henv es hf
     simp only [typeOf] at h
-    cases hL : typeOfList .strict s env es caps with
+    cases hL : typeOfList m s env es caps with
     | error err => rw [hL] at h; cases h
     | ok τs =>
       rw [hL] at h; simp only at h
@@ -553,23 +588,36 @@ theorem sound2 {s : Schema} {env : RequestEnv} {w : World} (hWF : SchemaWF2 s) (
       split at h
       · cases h
       · rename_i hne
-        cases hlub : lubAll .strict τs with
+        cases hlub : lubAll m τs with
         | none => rw [hlub] at h; cases h
         | some τ' =>
           rw [hlub] at h
           simp only [ok, Except.ok.injEq, Prod.mk.injEq] at h; obtain ⟨rfl, rfl⟩ := h
-          have hne' : τs ≠ [] := by
-            cases es with
-            | nil => simp [ValidationMode.isStrict] at hne
-            | cons e es' => obtain ⟨_, _, _, _, _, rfl⟩ := typeOfList_cons hL; simp
-          refine ⟨?_, fun hs hc => set_good (gl hs hc) hne' hlub⟩
-          simp only [CedarType.mono]
-          exact (lubAll_spec hlub hne').2 hms
+          cases m with
+          | strict =>
+            have hne' : τs ≠ [] := by
+              cases es with
+              | nil => simp [ValidationMode.isStrict] at hne
+              | cons e es' => obtain ⟨_, _, _, _, _, rfl⟩ := typeOfList_cons hL; simp
+            refine ⟨?_, fun hs hc => set_good (gl hs hc) hne' hlub⟩
+            simp only [CedarType.mono]
+            exact (lubAll_spec hlub hne').2 hms
+          | permissive =>
+            simp only [ValidationMode.isStrict, Bool.false_or, Bool.and_eq_true, Bool.not_eq_true'] at hmode
+            have hne' : τs ≠ [] := by
+              cases es with
+              | nil => simp at hmode
+              | cons e es' => obtain ⟨_, _, _, _, _, rfl⟩ := typeOfList_cons hL; simp
+            have hall : ∀ t, t ∈ τs → t.flat = true ∧ t ≠ .never :=
+              fun t ht => ⟨typeOfList_flat' hmode.1 hL t ht, mono_ne_never (hms t ht)⟩
+            refine ⟨?_, fun hs hc => set_good_flat (gl hs hc) hne' hall hlub⟩
+            simp only [CedarType.mono]
+            exact (lubAll_flat_spec hlub hne' hall).2
   | .record kvs, hf, caps, τ, c', h => by
-    simp only [InFragment2, Bool.and_eq_true, decide_eq_true_eq] at hf
-    have ih := sound2KVs hWF henv kvs hf.1
+    simp only [InFragmentM, Bool.and_eq_true, decide_eq_true_eq] at hf
+    have ih := soundMKVs (m := m) hWF henv kvs hf.1
     simp only [typeOf] at h
-    cases hL : typeOfKVs .strict s env kvs caps with
+    cases hL : typeOfKVs m s env kvs caps with
     | error err => rw [hL] at h; cases h
     | ok attrs =>
       rw [hL] at h
@@ -577,38 +625,44 @@ theorem sound2 {s : Schema} {env : RequestEnv} {w : World} (hWF : SchemaWF2 s) (
       obtain ⟨hms, gl⟩ := ih caps attrs hL
       have hn : (attrs.map (·.1)).Nodup := by rw [typeOfKVs_keys hL]; exact hf.2
       exact ⟨by simp only [CedarType.mono]; exact hms, fun hs hc => record_good (gl hs hc) hn⟩
-theorem sound2List {s : Schema} {env : RequestEnv} {w : World} (hWF : SchemaWF2 s) (henv : EnvMatches s env w.q) :
-    ∀ (es : List Expr), InFragment2List env es = true → ∀ (caps : Capabilities) (τs : List CedarType),
-      typeOfList .strict s env es caps = .ok τs →
+theorem soundMList {m : ValidationMode} {s : Schema} {env : RequestEnv} {w : World} (hWF : SchemaWF2 s) (henv : EnvMatches s env w.q) :
+    ∀ (es : List Expr), InFragmentMList m env es = true → ∀ (caps : Capabilities) (τs : List CedarType),
+      typeOfList m s env es caps = .ok τs →
       (∀ t, t ∈ τs → t.mono = true) ∧ (Sem s env w → CapsHold w caps → ListGood w es τs)
   | [], _, caps, τs, h => by
     simp only [typeOfList, Except.ok.injEq] at h; subst h
     exact ⟨fun t ht => (by cases ht), fun _ _ => listGood_nil w⟩
   | e :: es, hf, caps, τs, h => by
-    simp only [InFragment2List, Bool.and_eq_true] at hf
+    simp only [InFragmentMList, Bool.and_eq_true] at hf
     obtain ⟨τ, c, τs', h1, h2, rfl⟩ := typeOfList_cons h
-    obtain ⟨hm, g⟩ := sound2 hWF henv e hf.1 caps τ c h1
-    obtain ⟨hms, gs⟩ := sound2List hWF henv es hf.2 caps τs' h2
+    obtain ⟨hm, g⟩ := soundM (m := m) hWF henv e hf.1 caps τ c h1
+    obtain ⟨hms, gs⟩ := soundMList (m := m) hWF henv es hf.2 caps τs' h2
     refine ⟨?_, fun hs hc => listGood_cons (g hs hc).1 (gs hs hc)⟩
     intro t ht
     rcases List.mem_cons.mp ht with rfl | ht
     · exact hm
     · exact hms t ht
-theorem sound2KVs {s : Schema} {env : RequestEnv} {w : World} (hWF : SchemaWF2 s) (henv : EnvMatches s env w.q) :
-    ∀ (kvs : List (String × Expr)), InFragment2KVs env kvs = true → ∀ (caps : Capabilities) (attrs : Attrs),
-      typeOfKVs .strict s env kvs caps = .ok attrs →
+theorem soundMKVs {m : ValidationMode} {s : Schema} {env : RequestEnv} {w : World} (hWF : SchemaWF2 s) (henv : EnvMatches s env w.q) :
+    ∀ (kvs : List (String × Expr)), InFragmentMKVs m env kvs = true → ∀ (caps : Capabilities) (attrs : Attrs),
+      typeOfKVs m s env kvs caps = .ok attrs →
       monoAttrs attrs = true ∧ (Sem s env w → CapsHold w caps → KVsGood w kvs attrs)
   | [], _, caps, attrs, h => by
     simp only [typeOfKVs, Except.ok.injEq] at h; subst h
     exact ⟨rfl, fun _ _ => kvsGood_nil w⟩
   | (k, e) :: es, hf, caps, attrs, h => by
-    simp only [InFragment2KVs, Bool.and_eq_true] at hf
+    simp only [InFragmentMKVs, Bool.and_eq_true] at hf
     obtain ⟨τ, c, attrs', h1, h2, rfl⟩ := typeOfKVs_cons h
-    obtain ⟨hm, g⟩ := sound2 hWF henv e hf.1 caps τ c h1
-    obtain ⟨hms, gs⟩ := sound2KVs hWF henv es hf.2 caps attrs' h2
+    obtain ⟨hm, g⟩ := soundM (m := m) hWF henv e hf.1 caps τ c h1
+    obtain ⟨hms, gs⟩ := soundMKVs (m := m) hWF henv es hf.2 caps attrs' h2
     refine ⟨?_, fun hs hc => kvsGood_cons (g hs hc).1 (gs hs hc)⟩
     simp only [monoAttrs, Bool.and_eq_true]
     exact ⟨hm, hms⟩
 end
+
+/-- the strict-mode instance -/
+theorem sound2 {s : Schema} {env : RequestEnv} {w : World} (hWF : SchemaWF2 s) (henv : EnvMatches s env w.q) :
+    ∀ (e : Expr), InFragment2 env e = true → ∀ (caps : Capabilities) (τ : CedarType) (c' : Capabilities),
+      typeOf .strict s env e caps = .ok (τ, c') → τ.mono = true ∧ (Sem s env w → CapsHold w caps → Good w e τ c') :=
+  soundM (m := .strict) hWF henv
 
 end Cedar.C03
